@@ -58,6 +58,13 @@ func (s *State) evalAssignment(right object.Object, node *ast.InfixExpression) o
 }
 
 func (s *State) evalIndexAssigment(which ast.Node, index, value object.Object) object.Object {
+	if reg, ok := which.(*object.Register); ok {
+		// an integer variable, like below when it isn't held in a register.
+		if index.Type() == object.ERROR {
+			return index
+		}
+		return s.Errorf("index assignment to %s of unexpected type %s", reg.Literal(), object.INTEGER.String())
+	}
 	if which.Value().Type() != token.IDENT {
 		return s.NewError("index assignment to non identifier: " + which.Value().DebugString())
 	}
@@ -494,6 +501,9 @@ func (s *State) evalDelete(node ast.Node) object.Object {
 }
 
 func (s *State) deleteMapEntry(idxE *ast.IndexExpression, index object.Object) object.Object {
+	if reg, ok := idxE.Left.(*object.Register); ok { // an integer variable, like below when it isn't held in a register.
+		return s.NewError("delete index on non map: " + reg.Literal() + " " + object.INTEGER.String())
+	}
 	if idxE.Left.Value().Type() != token.IDENT {
 		return s.NewError("delete index on non identifier: " + idxE.Left.Value().DebugString())
 	}
@@ -573,7 +583,7 @@ func (s *State) evalBuiltin(node *ast.Builtin) object.Object {
 	case token.LEN:
 		l := object.Len(val)
 		if l == -1 {
-			return s.NewError("len: not supported on " + val.Type().String())
+			return s.NewError("len: not supported on " + typeOf(val).String())
 		}
 		return object.Integer{Value: int64(l)}
 	default:
@@ -629,7 +639,7 @@ func (s *State) evalIndexRangeExpression(left object.Object, leftIdx, rightIdx a
 	case object.NIL:
 		return object.NULL
 	default:
-		return s.NewError("range index operator not supported: " + left.Type().String())
+		return s.NewError("range index operator not supported: " + typeOf(left).String())
 	}
 }
 
@@ -660,7 +670,7 @@ func (s *State) evalIndexExpressionIdx(left, index object.Object) object.Object 
 	case left.Type() == object.NIL:
 		return object.NULL
 	default:
-		return s.NewError("index operator not supported: " + left.Type().String() + "[" + index.Type().String() + "]")
+		return s.NewError("index operator not supported: " + typeOf(left).String() + "[" + typeOf(index).String() + "]")
 	}
 }
 
@@ -743,7 +753,7 @@ func (s *State) applyExtension(fn object.Extension, args []object.Object) object
 func (s *State) applyFunction(name string, fn object.Object, args []object.Object) object.Object {
 	function, ok := fn.(object.Function)
 	if !ok {
-		return s.NewError("not a function: " + fn.Type().String() + ":" + fn.Inspect())
+		return s.NewError("not a function: " + typeOf(fn).String() + ":" + fn.Inspect())
 	}
 	if g := s.rootEnv.FuncGeneration(); g != s.cacheGen { // (from the root: under recursion s.env's chain is as long as the recursion is deep)
 		// a top level function was redefined: memoized results that called it are stale.
@@ -1028,6 +1038,11 @@ func ModifyRegister(register *object.Register, in ast.Node) (ast.Node, bool) {
 // binding them is refused or ignored, which a register would bypass.
 func plainName(name string) bool {
 	return name != "self" && !object.IsExtraFunction(name)
+}
+
+// typeOf is the type of a value for error messages: for the program, a register is an integer.
+func typeOf(o object.Object) object.Type {
+	return object.CopyRegister(o).Type()
 }
 
 // usesRegister tells if the (already rewritten) tree mentions the register.
@@ -1431,7 +1446,7 @@ func (s *State) evalStringInfixExpression(operator token.Type, left, right objec
 		return object.String{Value: strings.Repeat(leftVal, int(rightVal))}
 	default:
 		return s.Errorf("unknown operator: %s %s %s",
-			left.Type(), operator, right.Type())
+			typeOf(left), operator, typeOf(right))
 	}
 }
 
@@ -1481,7 +1496,7 @@ func (s *State) evalArrayInfixExpression(operator token.Type, left, right object
 		return object.NewArray(append(leftVal, rightArr...))
 	default:
 		return s.Errorf("unknown operator: %s %s %s",
-			left.Type(), operator, right.Type())
+			typeOf(left), operator, typeOf(right))
 	}
 }
 
@@ -1493,7 +1508,7 @@ func (s *State) evalMapInfixExpression(operator token.Type, left, right object.O
 		return leftMap.Append(rightMap)
 	default:
 		return s.Errorf("unknown operator: %s %s %s",
-			left.Type(), operator, right.Type())
+			typeOf(left), operator, typeOf(right))
 	}
 }
 
